@@ -234,7 +234,7 @@ def run(ctx):
     progs = programs(ctx.tier)
     ctx.rule('R02.1', 'for every command program (bounded length, symbolic numbers) the parsed segment list equals the SVG semantics: '
                       'abs/rel operands, implicit repetition, S/T reflection and fallback, closepath, zero-radius arcs', len(progs))
-    ctx.rule('R02.2', 'dispatch exhaustiveness: ladder letters == UPPERCASE, COMMANDS == upper+lower (sets of single letters), COMMAND_RE class == COMMANDS', 4)
+    ctx.rule('R02.2', 'dispatch tables: UPPERCASE == the ten SVG command letters (each exercised by R02.1), COMMANDS == upper+lower (sets of single letters), COMMAND_RE class == COMMANDS', 4)
     ctx.rule('R02.8', 'lexer: L(FLOAT_RE) == SVG number language; commands cannot occur inside numbers; arc operands are tokenised '
                       'with single-character flags for both A and a', 4)
     # ------------------------------------------------------------------ R02.1
@@ -274,12 +274,6 @@ def run(ctx):
 
     # ------------------------------------------------------------------ R02.2 exhaustiveness
     pm = mdl.module('path')
-    ladder = set()
-    for n in ast.walk(fi.node):
-        if isinstance(n, ast.Compare) and isinstance(n.left, ast.Name) and n.left.id == 'command' and isinstance(n.ops[0], ast.Eq) \
-                and isinstance(n.comparators[0], ast.Constant) and isinstance(n.comparators[0].value, str):
-            ladder.add(n.comparators[0].value)
-
     kinds = {}
 
     def const_set(name):
@@ -301,8 +295,11 @@ def run(ctx):
     ctx.record('R02.2', 'path', 'COMMANDS / UPPERCASE are collections of single letters (not str)', not strs,
                detail='' if not strs else '%s is a str: `x in %s` is a substring test, which accepts the empty chunk between two adjacent command '
                'letters (and multi-letter chunks) as a command' % (strs[0], strs[0]), where='svgpathtools/path.py')
-    ctx.record('R02.2', fi.qualname, 'ladder letters == UPPERCASE', ladder == upper == set(ARITY),
-               detail='ladder=%s UPPERCASE=%s' % (sorted(ladder), sorted(upper)), where=where(fi))
+    # that each of these letters HAS a handler with the right meaning is R02.1 (every letter occurs in the programs); here: the table
+    # the dispatcher tests membership in is exactly the ten SVG commands (a letter missing from it is read as an implicit repetition)
+    used = {c.upper() for prog in progs for c, _ in prog}
+    ctx.record('R02.2', fi.qualname, 'UPPERCASE == the SVG command letters, all exercised by R02.1', upper == set(ARITY) and used >= set(ARITY),
+               detail='UPPERCASE=%s exercised=%s' % (sorted(upper), sorted(used)), where=where(fi))
     ctx.record('R02.2', 'path', 'COMMANDS == UPPERCASE + lower case', commands == upper | {c.lower() for c in upper},
                detail='COMMANDS=%s' % sorted(commands), where='svgpathtools/path.py')
     cre = redfa.pattern_of(pm, 'COMMAND_RE')
